@@ -36,7 +36,7 @@ func init() {
 	Register(&Prop{
 		ID:         "C06",
 		Gomaxprocs: 2,
-		Rule:       "byte strings up to 64 KiB: (1) journals from G and hand-written corner snippets mutated by 1-6 operators (bit flips, deletions, duplications, truncation, splices of a dictionary of syntax fragments, invalid UTF-8 sequences, control characters, BOM, Unicode blanks and separators, extreme numbers and exponents, malformed dates), (2) parametric hostile shapes (one long line, 'a|a|a|...' headers, deeply nested account names, huge digit strings, grouped numbers, thousands of tags, brackets, quotes, blank lines, tiny transactions, postings, directives with sub-directives, include lines, ...) at sizes up to 64 KiB. Each input: the lexer is run alone (progress oracle: token spans inside the input, left to right, no overlap, gaps only blanks, EOF token at len(input), token count <= 2n+8), then the document is opened in an in-process server and diagnostics plus every feature request at hostile positions (origin, inside, past the end of line and file, huge, inside surrogate pairs; every position for a third of the documents below 300 bytes) must return; a panic, a fatal error, more than 3 GiB resident or 10 s CPU for one request (background analysis included) ends the child and is attributed to the journalled input. CPU time (getrusage, not wall clock): a request may use 100 ms + 10 us per input byte on the thread it runs on (0.75 s at 64 KiB; a linear pass costs 1-30 ms), a notification with the analysis it starts 600 ms + 15 us per byte of the whole process (garbage collection is billed there). (3) scaling oracle: each shape family at 2, 16 and 64 KiB, per-byte CPU cost of every request may grow at most 6-fold from 2 KiB to 64 KiB (quadratic = 32-fold); judged only when the 64 KiB request costs >= 30 ms. (4) wire sessions against the built binary with the input both as didOpen text and as an included file on disk (raw bytes): every request must be answered, the process must stay alive, child CPU per request bounded as above. Non-trivial = inputs that differ from every seed; distinct by input hash.",
+		Rule:       "byte strings up to 64 KiB: (1) journals from G and hand-written corner snippets mutated by 1-6 operators (bit flips, deletions, duplications, truncation, splices of a dictionary of syntax fragments, invalid UTF-8 sequences, control characters, BOM, Unicode blanks and separators, extreme numbers and exponents, malformed dates), (2) parametric hostile shapes (one long line, 'a|a|a|...' headers, deeply nested account names, huge digit strings, grouped numbers, thousands of tags, brackets, quotes, blank lines, tiny transactions, postings, directives with sub-directives, include lines, ...) at sizes up to 64 KiB. Each input: the lexer is run alone (progress oracle: token spans inside the input, left to right, no overlap, gaps only blanks, EOF token at len(input), token count <= 2n+8), then the document is opened in an in-process server and diagnostics plus every feature request at hostile positions (origin, inside, past the end of line and file, huge, inside surrogate pairs; every position for a third of the documents below 300 bytes) must return; a panic, a fatal error, more than 3 GiB resident or 10 s CPU for one request (background analysis included) ends the child and is attributed to the journalled input. CPU time (getrusage, not wall clock): a request may use 250 ms + 10 us per input byte on the thread it runs on (0.9 s at 64 KiB; a linear pass costs 1-30 ms), a notification with the analysis it starts 600 ms + 15 us per byte of the whole process (garbage collection is billed there). (3) scaling oracle: each shape family at 2, 16 and 64 KiB, per-byte CPU cost of every request may grow at most 6-fold from 2 KiB to 64 KiB (quadratic = 32-fold); judged only when the 64 KiB request costs >= 30 ms. (4) wire sessions against the built binary with the input both as didOpen text and as an included file on disk (raw bytes): every request must be answered, the process must stay alive, child CPU per request bounded as above. Non-trivial = inputs that differ from every seed; distinct by input hash.",
 		Notes:      []string{"no coverage guidance: the mutation operators and the dictionary are fixed, inputs are a function of (seed, index)", "a request that neither returns nor burns CPU is reported by the generous wall-clock watchdog as inconclusive"},
 		Cases: func(tier string) int64 {
 			a, b, c, d := c06Counts(tier)
@@ -362,7 +362,7 @@ func c06CPUWatchdog(c *Ctx) {
 
 // c06Budget: CPU time of the thread a synchronous request runs on.
 func c06Budget(n int) time.Duration {
-	return 100*time.Millisecond + time.Duration(n)*10*time.Microsecond
+	return 250*time.Millisecond + time.Duration(n)*10*time.Microsecond
 }
 
 // c06BudgetBackground: CPU time of the whole process while a notification and the analysis it
